@@ -2003,7 +2003,7 @@ namespace gch
           return;
         }
 #endif
-        std::memcpy (to_address (p), &val, sizeof (value_ty));
+        std::memcpy (to_address (p), std::addressof (val), sizeof (value_ty));
       }
 
       // This is basically alloc_traits::construct, and is defined so that we
